@@ -1,8 +1,15 @@
-//! C08 layer 1: LimitIter and Handles through the public API.
+//! C08: layer 1 (LimitIter and Handles through the public API) and layers 2/3 (queries, see
+//! c08_query.rs).  Request codes: coq/Run/C08.v.
 use crate::out::{guard, Out};
 use crate::rng::Rng;
+use crate::storegen::{apply, gen_history, new_store, GenCfg};
 use crate::sx::{a, b, l, nats, Sx};
 use stam::*;
+
+pub use crate::c10::dop as c10_dop;
+#[path = "c08_query.rs"]
+pub mod query;
+use query::*;
 
 pub struct Ctx {
     store: AnnotationStore,
@@ -62,7 +69,7 @@ impl Ctx {
                 let r = guard(|| obs(&mk(&self.store, &av), false, k));
                 (req.clone(), vec![r.unwrap_or_else(panic_sx)], av.len() > 1)
             }
-            _ => {
+            4 => {
                 let av = list(req.nth(1));
                 let r = guard(|| {
                     let mut h = mk(&self.store, &av);
@@ -71,6 +78,145 @@ impl Ctx {
                 });
                 (req.clone(), vec![r.unwrap_or_else(panic_sx)], av.len() > 1)
             }
+            5 => {
+                let mut store = new_store();
+                for op in req.nth(1).list() {
+                    let _ = apply(&mut store, op);
+                }
+                let mut outs = Vec::new();
+                let mut nt = false;
+                for qe in req.nth(2).list() {
+                    let q = q_of(qe.nth(0));
+                    let t = eval_text(&store, &q);
+                    if t.list().iter().any(|r| !r.list().is_empty()) {
+                        nt = true;
+                    }
+                    outs.push(t);
+                    outs.push(eval_prog(&store, &q));
+                    if qe.nth(1).int() != 0 {
+                        outs.push(eval_chain(&store, &q));
+                    }
+                }
+                (req.clone(), outs, nt)
+            }
+            6 => {
+                let mut sa = new_store();
+                let mut sb = new_store();
+                for op in req.nth(1).list() {
+                    let _ = apply(&mut sa, op);
+                    let _ = apply(&mut sb, op);
+                }
+                let n0 = sa.annotations_len();
+                let outs = exec_add(&mut sa, &mut sb, req.nth(2));
+                let nt = sa.annotations_len() > n0;
+                (req.clone(), outs, nt)
+            }
+            _ => {
+                let mut sa = new_store();
+                let mut sb = new_store();
+                for op in req.nth(1).list() {
+                    let _ = apply(&mut sa, op);
+                    let _ = apply(&mut sb, op);
+                }
+                let n0 = sb.annotations().count();
+                let sub = q_of(req.nth(3));
+                let outs = exec_delete(&mut sa, &mut sb, req.nth(2).int(), &sub, req.nth(4).int() != 0);
+                let nt = sb.annotations().count() < n0;
+                (req.clone(), outs, nt)
+            }
+        }
+    }
+}
+
+fn qentry(q: &Q) -> Sx {
+    l(vec![q_sx(q), a(chain_available(q) as i64)])
+}
+
+/// all orderings of the constraints of the outer query (and, separately, of its sub-query)
+fn orderings(q: &Q) -> Vec<Q> {
+    let mut out = Vec::new();
+    if q.cs.len() <= 4 {
+        for p in permutations(&q.cs) {
+            let mut q2 = q.clone();
+            q2.cs = p;
+            out.push(q2);
+        }
+    } else {
+        out.push(q.clone());
+    }
+    if let Some(sub) = &q.sub {
+        if sub.cs.len() >= 2 && sub.cs.len() <= 3 {
+            for p in permutations(&sub.cs).into_iter().skip(1) {
+                let mut q2 = q.clone();
+                let mut s2 = (**sub).clone();
+                s2.cs = p;
+                q2.sub = Some(Box::new(s2));
+                out.push(q2);
+            }
+        }
+    }
+    out
+}
+
+pub fn generate_queries(out: &mut Out, ctx: &Ctx, tier: &str, seed: u64) {
+    let thorough = tier == "thorough";
+    let mut rng = Rng::new(seed ^ 0xC08_2);
+    let nhist = if thorough { 12000 } else { 700 };
+    let cfg = QCfg { rts: vec![0, 0, 0, 1, 1, 2, 3, 3, 4], texts: false, unions: true, limits: true, max_depth: 2 };
+    for i in 0..nhist {
+        let hcfg = GenCfg { max_ops: if i % 3 == 0 { 24 } else { 12 }, removals: if i % 2 == 0 { 2 } else { 0 }, invalid: 0, values: true };
+        let ops = gen_history(&mut rng, &hcfg);
+        let mut entries = Vec::new();
+        for _ in 0..3 {
+            let mut outer = Vec::new();
+            let q = gen_query(&mut rng, &cfg, &mut outer, 0);
+            out.count(&format!("select_rt{}", q.rt));
+            if q.sub.is_some() {
+                out.count("select_with_subquery");
+            }
+            if has_limit(&q) {
+                out.count("select_with_limit");
+            }
+            for o in orderings(&q) {
+                entries.push(qentry(&o));
+            }
+        }
+        out.count_n("select_entries", entries.len() as u64);
+        let req = l(vec![a(5), l(ops.clone()), l(entries)]);
+        let (i2, o, nt) = ctx.exec(&req);
+        out.case(&i2, &o, nt, &req);
+        if i % 4 == 0 {
+            // DELETE ANNOTATION ?x { SELECT ANNOTATION ?x WHERE ... }
+            let dcfg = QCfg { rts: vec![0], texts: false, unions: true, limits: true, max_depth: 0 };
+            let mut outer = Vec::new();
+            let sub = gen_query(&mut rng, &dcfg, &mut outer, 0);
+            let req = l(vec![a(7), l(ops.clone()), a(sub.name), q_sx(&sub), a(0)]);
+            let (i2, o, nt) = ctx.exec(&req);
+            out.case(&i2, &o, nt, &req);
+            out.count("delete");
+        }
+        if i % 4 == 1 {
+            let acfg = QCfg { rts: vec![0, 0, 1, 2, 3, 4], texts: false, unions: false, limits: true, max_depth: 1 };
+            let mut outer = Vec::new();
+            let sub = gen_query(&mut rng, &acfg, &mut outer, 0);
+            let target = if sub.sub.is_some() && rng.chance(1, 2) { 1 } else { 0 };
+            let id = if rng.chance(1, 3) { a(rng.below(9) as i64) } else { a(-1) };
+            let nd = rng.below(3);
+            let mut data = Vec::new();
+            for _ in 0..nd {
+                // (no floats: STAMQL text cannot denote one, C09 Known_C09_float)
+                let v = match rng.below(5) {
+                    0 => l(vec![a(0)]),
+                    1 => l(vec![a(1), a(rng.below(2) as i64)]),
+                    2 | 3 => l(vec![a(2), a(rng.range(-3, 3))]),
+                    _ => l(vec![a(4), a(97 + rng.below(3) as i64)]),
+                };
+                data.push(l(vec![a(rng.below(4) as i64), a(rng.below(3) as i64), v]));
+            }
+            let req = l(vec![a(6), l(ops.clone()), l(vec![id, l(data), a(target), q_sx(&sub)])]);
+            let (i2, o, nt) = ctx.exec(&req);
+            out.case(&i2, &o, nt, &req);
+            out.count("add");
         }
     }
 }
@@ -99,6 +245,7 @@ fn nodup_lists(universe: usize, maxlen: usize) -> Vec<Vec<usize>> {
 pub fn generate(out: &mut Out, tier: &str, seed: u64) {
     let thorough = tier == "thorough";
     let ctx = Ctx::new();
+    generate_queries(out, &ctx, tier, seed);
     let emit = |out: &mut Out, req: Sx, key: &str| {
         let (i, o, nt) = ctx.exec(&req);
         out.case(&i, &o, nt, &req);
